@@ -6,6 +6,7 @@ import (
 	"sort"
 	"strings"
 	"testing"
+	"time"
 
 	"github.com/weedbox/pokertable"
 	"github.com/weedbox/pokertable/seat_manager"
@@ -228,7 +229,15 @@ func c03Body(c *run.Ctx) {
 	sm := pokertable.VerifSeatManager(s.TE)
 	check := func(where string) {
 		t := s.Now()
-		if sig, msg := seatConsistency(t, sm); sig != "" {
+		sig, msg := seatConsistency(t, sm)
+		for retry := 0; sig == "C03.sm-isin" && retry < 20; retry++ {
+			// the engine seats reserved players in by itself on its own goroutine (auto-join
+			// completion); table and seat manager are written one after the other: sample again
+			time.Sleep(500 * time.Microsecond)
+			t = s.Now()
+			sig, msg = seatConsistency(t, sm)
+		}
+		if sig != "" {
 			c.Failf(sig, "%s: %s; %s | sm: %s", where, msg, tableSummary(t), smDump(sm))
 		}
 		if sig, msg := model.compare(t); sig != "" {
@@ -532,7 +541,13 @@ func c03HandsBody(c *run.Ctx) {
 	o.Prepare = func(s *sim.Sim) { sm = pokertable.VerifSeatManager(s.TE) }
 	check := func(s *sim.Sim, where string) {
 		t := s.Now()
-		if sig, msg := seatConsistency(t, sm); sig != "" {
+		sig, msg := seatConsistency(t, sm)
+		for retry := 0; sig == "C03.sm-isin" && retry < 20; retry++ {
+			time.Sleep(500 * time.Microsecond)
+			t = s.Now()
+			sig, msg = seatConsistency(t, sm)
+		}
+		if sig != "" {
 			c.Failf(sig, "%s: %s; %s | sm: %s", where, msg, tableSummary(t), smDump(sm))
 		}
 	}
